@@ -7,25 +7,24 @@ FINDINGS = os.path.join(os.path.dirname(HERE), 'findings.d', 'C06.json')
 
 
 # ------------------------------------------------------------------ generator-side simulation
-RULE = ['n + n // 2 + 1']     # the collection threshold rule of the working tree (set from coq/Generated.v in run())
+RULE = [None]     # the collection threshold rule of the working tree, tabulated by the model driver (set in run())
 
 
 def rule(n):
-    return eval(RULE[0], {'__builtins__': {}}, {'n': n})
+    t = RULE[0]
+    return t[n] if t and n < len(t) else n + n // 2 + 1
 
 
-def load_rule():
-    """gc->mitems = <expr over gc->nitems>, as tools/genx_life.py read it off src/GC.c: the generator's
-    own simulation must predict threshold collections with the rule of the tree under test"""
+def load_rule(ctx, drv):
+    """gc->mitems as a function of gc->nitems, as tools/genx_life.py read it off src/GC.c (Generated.gc_mitems_rule,
+    extracted): the generator's own simulation must predict threshold collections with the rule of the tree under test"""
     try:
-        g = open(os.path.join(vlib.COQ, 'Generated.v')).read()
-        m = re.search(r'Definition gc_mitems_rule \(n : nat\) : nat := ([n0-9+*/() ]+)\.', g)
-        if m:
-            RULE[0] = m.group(1).replace('/', '//')
-            return True
-    except OSError:
-        pass
-    return False
+        out = ctx.run_lines(drv, [''], args=['rule'])[1]
+        RULE[0] = [int(x) for x in out[0].split()]
+        return len(RULE[0]) > 100
+    except Exception:
+        RULE[0] = None
+        return False
 
 
 class Sim:
@@ -371,7 +370,10 @@ def ledger(step):
             a = it.split(':')
             if len(a) != 3:
                 return None
-            d[int(a[0])] = (int(a[1]), int(a[2]))
+            try:
+                d[int(a[0])] = (int(a[1]), int(a[2]))
+            except ValueError:
+                return None             # a transcript cut short by a crash in the middle of a step
     return d
 
 
@@ -384,8 +386,14 @@ def oracle(case, impl, spec):
         return None
     if ';BAD' in spec:
         return None                      # not a well-formed history (use after delete, …)
-    nev = len([t for t in model_ops(case)[1] if t[0] != 'u'])
+    mcr = re.search(r'\| (CRASH\(\d+\)|TIMEOUT|EXIT\(\d+\))\s*$', impl)
+    if mcr:
+        return ('the library did not survive this well-formed history: %s '
+                '(a destructor run twice or memory released twice is the usual cause)' % mcr.group(1))
+    evtoks = [t for t in model_ops(case)[1] if t[0] != 'u']
+    nev = len(evtoks)
     si, ss = steps(impl), spec.split(' ;;')[0].split(' | ') if nev else []
+    owned, running, prev = {}, True, {}
     for n, st in enumerate(si):
         if n >= len(ss):
             return 'step %d: %s' % (n, st[:80])
@@ -397,9 +405,35 @@ def oracle(case, impl, spec):
                 return 'step %d: object %d finalised %d times' % (n, o, fi)
             if fr != fi:
                 return 'step %d: object %d finalised %d times but released %d times' % (n, o, fi, fr)
-        for o in [int(x) for x in ss[n].split(',') if x]:
+        must_s, _, kept_s = ss[n].partition('/')
+        for o in [int(x) for x in must_s.split(',') if x]:
             if led.get(o, (0, 0))[0] != 1:
                 return 'step %d: object %d must have been finalised by now (deleted, owned by a deleted Box, or teardown) but its destructor ran %d times' % (n, o, led.get(o, (0, 0))[0])
+        # roots belong to the program: only del_root (or the Box they were given to) may finalise them —
+        # no collection and no teardown (thread exit, program exit)
+        for o in [int(x) for x in kept_s.split(',') if x]:
+            if led.get(o, (0, 0))[0] != 0:
+                return ('step %d (%s): root object %d was finalised by the collector — it was allocated with new_root, never passed to '
+                        'del_root and never given to a Box' % (n, evtoks[n], o))
+        # through an owning Box: when the destructor of a Box has run while the collector is running, the
+        # object the Box owned has been finalised too (Box_Del issues del on it)
+        tok = evtoks[n] if n < len(evtoks) else ''
+        if running:
+            for b, o in owned.items():
+                if o is not None and prev.get(b, (0, 0))[0] == 0 and led.get(b, (0, 0))[0] == 1 and led.get(o, (0, 0))[0] != 1:
+                    return ('step %d (%s): the destructor of Box %d ran with the collector running, but the object %d it owned was not '
+                            'finalised (its destructor ran %d times)' % (n, tok, b, o, led.get(o, (0, 0))[0]))
+        if tok[:1] == 'l':
+            b, _, o = tok[1:].split('@')[0].partition(',')
+            owned[int(b)] = None if o == '-' else int(o)
+        elif tok[:1] == 's':
+            running = False
+        elif tok[:1] == 'S':
+            running = True
+        for b in list(owned):
+            if led.get(b, (0, 0))[0] >= 1:
+                owned[b] = None          # Box_Del cleared its pointer
+        prev = led
     if len(si) != len(ss):
         return 'implementation transcript has %d steps, the history %d' % (len(si), len(ss))
     # objects allocated by destructors are managed objects like any other: whatever exists before
@@ -448,7 +482,7 @@ def gen_exit_objs(rng):
     n = rng.randrange(1, 9)
     toks, used_f = [], False
     for i in range(1, n + 1):
-        k = rng.choice('ppoocrgf')
+        k = rng.choice('ppoocrghf')
         if k == 'f':
             if used_f:
                 k = 'p'
@@ -476,6 +510,8 @@ def exit_model_case(route, objs):
             new('N', ident)
         elif k == 'f':
             new('n', 900)
+        elif k == 'h':
+            new('N', ident); new('b', ident + 500); toks.append('l%d,%d' % (ident + 500, ident))
         elif k in 'ogc':
             owner = ident + {'o': 600, 'g': 500, 'c': 700}[k]
             if k == 'c' and not have_arr:
@@ -508,13 +544,26 @@ def check_exit_case(ctx, exe, drv, route, objs):
         return 'the history did not reach its termination route', rec
     if f[3] != 'B0':
         return 'a destructor ran on a block that is not a live probe (%s)' % f[3], rec
-    must = {int(x) for x in spec.split(' | ')[-1].split(';')[0].split(',') if x}
+    must_s, _, kept_s = spec.split(' | ')[-1].split(';')[0].partition('/')
+    must = {int(x) for x in must_s.split(',') if x}
+    kept = {int(x) for x in kept_s.split(',') if x}
     for o, n in sorted(led.items()):
         if n > 1:
             return 'object %d finalised %d times at program exit (%s)' % (o, n, ROUTES[route]), rec
         if o in must and n != 1:
             return ('object %d is a managed object that is alive when the program ends through "%s": it must be finalised by the '
                     'teardown of the collector, but its destructor ran %d times' % (o, ROUTES[route], n)), rec
+    for o in sorted(kept):
+        if led.get(o, 0) != 0:
+            return ('root object %d was finalised by the collector when the program ended through "%s": it was allocated with '
+                    'new_root, never passed to del_root and never given to a Box' % (o, ROUTES[route])), rec
+    # through an owning Box: owners that were finalised at teardown have deleted what they owned
+    for t in objs.split():
+        if t[0] in 'gh':
+            o, b = int(t[1:]), int(t[1:]) + 500
+            if led.get(b, 0) == 1 and led.get(o, 0) != 1:
+                return ('the destructor of Box %d ran at program exit (%s) but the %s %d it owned was not finalised (its destructor ran %d times)'
+                        % (b, ROUTES[route], 'root' if t[0] == 'h' else 'object', o, led.get(o, 0))), rec
     if 'f' in objs.split() and f[1] != 'F1':
         return 'the managed File was closed %s times at program exit (%s)' % (f[1][1:], ROUTES[route]), rec
     a, b = f[2][1:].split('/')
@@ -535,7 +584,8 @@ def run_exit_routes(ctx, drv, volume, only=None):
     # the routes through Exception_Error after a signal first (they are the ones a changed
     # Exception_Error / Exception_Signal breaks), then the others
     order = list(SIGNAL_ROUTES) + [r for r in ROUTES if r not in SIGNAL_ROUTES]
-    cases = [(r, 'p1') for r in order] + [(r, 'p1 o2 c3 c4 r5 f g6 p7') for r in order]
+    cases = ([(r, 'p1') for r in order] + [(r, x) for r in 'rej' for x in ('r1', 'h1', 'g1')] +
+             [(r, 'p1 o2 c3 c4 r5 f g6 p7 h8') for r in order])
     cases += [(ctx.rng.choice(list(ROUTES)), gen_exit_objs(ctx.rng)) for _ in range(volume)]
     if only:
         cases = [only]
@@ -651,6 +701,55 @@ CORPUS += ['MO|a1+2000+2001 a3+2002+2003:1 t', 'MVR|a1+2000 a2+2001+2002 t', 'MO
 F2_WITNESS = 'MO|s n1 d1 S t'
 
 
+MY_PARAMS = {'gc_rem_pending_finalises', 'gc_sweep_nulls_first', 'gc_set_defers_in_sweep', 'gc_mitems_rule', 'gc_life_shape',
+             'main_registers_atexit', 'main_tears_down_after_return', 'exception_error_exits', 'genx_life'}
+
+
+def check_glue(ctx):
+    """coq/Properties_C06_glue.v: the abstract registry is a sound abstraction of C17's concrete one.  These are
+    statements about C17's MODEL, which is parameterised by what C17's translator (tools/genx_gcreg.py) reads off
+    src/GC.c.  When that translator cannot read the tree, C17's model does not exist for it (C17's own check reports
+    that); the life-cycle theorems and the correspondence of C06 do not depend on it, so this is a note, not an alarm.
+    Any other failure of the glue file is a broken obligation of C06."""
+    pf = 'Properties_C06_glue.v'
+    src = open(os.path.join(vlib.COQ, pf)).read()
+    thms = re.findall(r'^\s*Theorem\s+([A-Za-z0-9_\']+)', src, re.M)
+    foreign = [g.split()[1] for g in getattr(ctx, 'gen_status', []) if g.startswith('FAIL') and len(g.split()) > 1
+               and g.split()[1] not in MY_PARAMS]
+    import fcntl
+    with open(os.path.join(vlib.COQ, '.lock'), 'w') as lk:
+        fcntl.flock(lk, fcntl.LOCK_EX)
+        deps = vlib.coq_deps(pf)
+        rc, o, e = vlib.sh(['make', '-C', vlib.COQ, '-j%d' % vlib.NCPU] + deps, timeout=3000)
+        fcntl.flock(lk, fcntl.LOCK_UN)
+    if rc == 0:
+        out = os.path.join(ctx.tmp, 'glue_out'); os.makedirs(out, exist_ok=True)
+        import shutil
+        shutil.copy(os.path.join(vlib.COQ, pf), os.path.join(out, pf))
+        rc, o, e = vlib.sh(['coqc', '-Q', vlib.COQ, 'CelloV', '-Q', out, 'CelloVTmp', os.path.join(out, pf)], timeout=3000)
+    if rc == 0:
+        closed = o.count('Closed under the global context')
+        ctx.cov['obligations'] += len(thms)
+        ctx.cov['discharged'] += len(thms) if not getattr(ctx, 'proof_broken', None) else 0
+        ctx.cov['trusted_base'] += ['theorem %s (Properties_C06_glue.v): %s' % (t, 'closed under the global context (no axioms)'
+                                                                                if closed >= len(thms) else 'see coqc output') for t in thms]
+        ctx.cov['checker_cmd'] += ' && coqc -Q coq CelloV coq/%s' % pf
+        if closed < len(thms) and not getattr(ctx, 'proof_broken', None):
+            ctx.proof_broken = 'Properties_C06_glue.v: Print Assumptions does not report every theorem closed: ' + o[-600:]
+        return
+    if foreign:
+        ctx.notes.append('glue to C17 (Properties_C06_glue.v, %d theorems) NOT re-checked on this tree: C17\'s model cannot be '
+                         'regenerated (patterns of other translators that no longer match: %s); C06\'s own theorems and '
+                         'correspondence do not depend on it' % (len(thms), ', '.join(foreign[:6])))
+        ctx.cov['glue_to_C17'] = 'not re-checked: C17 model not regenerable (%s)' % ', '.join(foreign[:6])
+        return
+    ctx.cov['obligations'] += len(thms)
+    if not getattr(ctx, 'proof_broken', None):
+        m = re.search(r'File "([^"]+)", line (\d+)', o + e)
+        ctx.proof_broken = 'Properties_C06_glue.v or its dependencies do not compile (%s): %s' % (
+            (m.group(1) + ':' + m.group(2)) if m else '?', (o + e)[-1200:])
+
+
 def run(ctx):
     quick = ctx.tier == 'quick'
     ctx.cov['rule'] = (
@@ -674,10 +773,12 @@ def run(ctx):
     mine = json.load(open(FINDINGS)) if os.path.exists(FINDINGS) else []
     ctx.findings = [f for f in ctx.findings if f.get('property') != 'C06'] + mine
     ok = ctx.coq()
-    if not load_rule():
-        ctx.notes.append('collection threshold rule not found in Generated.v: generator simulates the pinned rule')
-    ctx.notes.append('collection threshold rule of the tree: mitems = %s' % RULE[0])
+    check_glue(ctx)
     drv = ctx.build_driver('Lifecycle')
+    if not load_rule(ctx, drv):
+        ctx.notes.append('collection threshold rule could not be tabulated: generator simulates the pinned rule')
+    else:
+        ctx.notes.append('collection threshold rule of the tree: mitems(0..5) = %s' % RULE[0][:6])
     h = ctx.build_harness('lifecycle.c', whitebox='GC')
     rc, pl, _ = ctx.run_lines(drv, [''], args=['params'])
     ctx.notes.append('model switches read off the C text: ' + (pl[0] if pl else '?'))
